@@ -106,6 +106,13 @@ LOOKALIKE = [{"a": [1, True, 0, False, 1.0, [1], [True], {"c": 1}, 2], "b": [Tru
              {"a": [[0, [False]], {"c": [1]}], "b": [[False, [0]], {"c": [True]}, 3]}]
 
 
+def _after_header(text: str) -> Any:
+    """A readable file whose first line the caller has consumed already: the document is what is still to be read."""
+    f = io.StringIO("# exported 2026-10-05\n" + text)
+    f.readline()
+    return f
+
+
 def agreement_only(text: str, eps: List[Tuple[str, Any]], ops: str, rec: Dict[str, Any]) -> List[Tuple[str, Dict[str, Any], str]]:
     import copy
 
@@ -144,6 +151,7 @@ def replay(rec: Dict[str, Any]) -> List[Tuple[str, Dict[str, Any], str]]:
                          ("string-in-a-bytes-file", lambda: io.BytesIO(json.dumps(base).encode()))]
             if isinstance(base, (list, dict)):
                 forms += [("json-text", lambda: json.dumps(base)), ("file", lambda: io.StringIO(json.dumps(base))),
+                          ("file-handed-over-after-a-header-line-was-read", lambda: _after_header(json.dumps(base))),
                           ("json-text-indented", lambda: "\n  " + json.dumps(base, indent=2) + "\n"), ("file-bytes", lambda: io.BytesIO(json.dumps(base).encode())),
                           ("file-bytes-utf16", lambda: io.BytesIO(json.dumps(base).encode("utf-16"))), ("file-bytes-bom", lambda: io.BytesIO(b"\xef\xbb\xbf" + json.dumps(base).encode()))]
             for fname, mk in forms:
@@ -158,7 +166,7 @@ def replay(rec: Dict[str, Any]) -> List[Tuple[str, Dict[str, Any], str]]:
                     if disc:
                         return [(f"{ename}|{fname}|{disc}|{ops}", {"query": text, "doc": show(dt["doc"]), "entry": ename, "form": fname,
                                  "expected": [show(v) for v in rec["res"][d]], "observed": str(got)[:300], "tagged": rec}, disc)]
-                    if fname == "json-text" and ename in ("jsonpath.findall", "compiled.finditer"):
+                    if fname == "json-text" and ename in ("jsonpath.findall", "compiled.finditer", "compiled.query.values", "env.query.values"):
                         # the caller edits what it was given; the same text evaluated again still means the same document
                         try:
                             for v in fn(mk()):
